@@ -1,6 +1,82 @@
 package main
 
-import "github.com/paulsonkoly/chess-3/uci"
+import (
+	"go/ast"
+	"go/parser"
+	"go/token"
+	"strconv"
+	"strings"
+
+	"github.com/paulsonkoly/chess-3/uci"
+)
+
+// hardLimitFactor reads k from `Clamp(k*tc.softLimit(stm), ...)` in timeControl.hardLimit (uci/uci.go): an integer
+// literal or the name of an integer constant declared in that file. 0 when the statement no longer has that shape
+// (the model then disagrees with the implementation on every timed case and the C14 stream reports it).
+func hardLimitFactor() int64 {
+	fset := token.NewFileSet()
+	f, err := parser.ParseFile(fset, "uci/uci.go", nil, 0)
+	if err != nil {
+		return 0
+	}
+	consts := map[string]string{}
+	for _, d := range f.Decls {
+		gd, ok := d.(*ast.GenDecl)
+		if !ok || gd.Tok != token.CONST {
+			continue
+		}
+		for _, sp := range gd.Specs {
+			vs := sp.(*ast.ValueSpec)
+			for i, n := range vs.Names {
+				if i < len(vs.Values) {
+					if bl, ok := vs.Values[i].(*ast.BasicLit); ok && bl.Kind == token.INT {
+						consts[n.Name] = bl.Value
+					}
+				}
+			}
+		}
+	}
+	var k int64
+	for _, d := range f.Decls {
+		fd, ok := d.(*ast.FuncDecl)
+		if !ok || fd.Name.Name != "hardLimit" || fd.Body == nil {
+			continue
+		}
+		ast.Inspect(fd.Body, func(n ast.Node) bool {
+			call, ok := n.(*ast.CallExpr)
+			if !ok || len(call.Args) != 3 {
+				return true
+			}
+			if id, ok := call.Fun.(*ast.Ident); !ok || id.Name != "Clamp" {
+				return true
+			}
+			be, ok := call.Args[0].(*ast.BinaryExpr)
+			if !ok || be.Op != token.MUL {
+				return true
+			}
+			lit := ""
+			switch x := be.X.(type) {
+			case *ast.BasicLit:
+				lit = x.Value
+			case *ast.Ident:
+				lit = consts[x.Name]
+			}
+			inner, ok := be.Y.(*ast.CallExpr)
+			if !ok {
+				return true
+			}
+			sel, ok := inner.Fun.(*ast.SelectorExpr)
+			if !ok || sel.Sel.Name != "softLimit" {
+				return true
+			}
+			if v, err := strconv.ParseInt(strings.ReplaceAll(lit, "_", ""), 0, 64); err == nil {
+				k = v
+			}
+			return true
+		})
+	}
+	return k
+}
 
 func init() {
 	generators = append(generators, func() {
@@ -8,5 +84,7 @@ func init() {
 		f.p("Definition TimeSafetyMargin : Z := %d.\n", int64(uci.TimeSafetyMargin))
 		f.p("Definition PredictedMoves : Z := %d.\n", int64(uci.PredictedMoves))
 		f.p("Definition TimeInf : Z := %d.\n", int64(uci.TimeInf))
+		f.p("(* the factor k of Clamp(k*softLimit, margin, left-margin) in timeControl.hardLimit, read from the source text *)\n")
+		f.p("Definition HardLimitFactor : Z := %d.\n", hardLimitFactor())
 	})
 }
